@@ -323,6 +323,13 @@ func (rr RR) Bytes() []byte {
 	s.AddUint16LengthPrefixed(func(s *cryptobyte.Builder) {
 		switch data := rr.Data.(type) {
 		case net.IP:
+			// net.ParseIP and net.IPv4 return IPv4 addresses in their
+			// 16-byte form: an A record holds 4 bytes, an AAAA record 16.
+			if v4 := data.To4(); v4 != nil && rr.Type == 1 {
+				data = v4
+			} else if rr.Type == 28 && len(data) == net.IPv4len {
+				data = data.To16()
+			}
 			s.AddBytes([]byte(data))
 		case string:
 			if rr.Type == 2 || rr.Type == 5 || rr.Type == 12 { // NS, CNAME, PTR
@@ -362,6 +369,9 @@ func (rr RR) Bytes() []byte {
 				s.AddUint16(4)
 				s.AddUint16LengthPrefixed(func(s *cryptobyte.Builder) {
 					for _, ip := range data.IPv4Hint {
+						if v4 := ip.To4(); v4 != nil {
+							ip = v4
+						}
 						s.AddBytes(ip)
 					}
 				})
@@ -376,6 +386,9 @@ func (rr RR) Bytes() []byte {
 				s.AddUint16(6)
 				s.AddUint16LengthPrefixed(func(s *cryptobyte.Builder) {
 					for _, ip := range data.IPv6Hint {
+						if len(ip) == net.IPv4len {
+							ip = ip.To16()
+						}
 						s.AddBytes(ip)
 					}
 				})
